@@ -103,7 +103,9 @@ Proof.
     destruct (ptr_ok (f_is64 f) img ps hp 8) as [off|] eqn:Ep; [|discriminate].
     destruct (ctx_offset' DT_HASH "DT_HASH" hp 8 off ltac:(cbn; tauto) Eh Ep) as [-> Hoff].
     cbn [snd]. rewrite (sysv_count f' off N); [reflexivity|].
-    rewrite Hle, (ctx_seekz' off Hoff). exact Hhash.
+    assert (Hm : e_machine (f_eh f') = e_machine (f_eh f)) by (dC C; assumption).
+    assert (Eeh : f_eh f = di_eh d) by (dC C; assumption).
+    rewrite Hle, H64, Hm, Eeh, (ctx_seekz' off Hoff). exact Hhash.
 Qed.
 
 (* one symbol, by index *)
